@@ -135,7 +135,9 @@ type aeRun struct {
 	target      *loop // loop whose generic iteration is analysed (nil: normal mode)
 	targetFn    *ssa.Function
 	inIter      bool
-	inTail      bool // executing the code after the analysed loop, reached from its guard at the generic position
+	freePhis    bool           // state-machine mode: loop-carried variables are abstract states
+	stateInit   map[string]any // their values on loop entry
+	inTail      bool           // executing the code after the analysed loop, reached from its guard at the generic position
 	iterFrame   *frame
 	outcome     *iterOutcome
 	eqOverride  map[string]bool
@@ -385,6 +387,21 @@ func (r *aeRun) cmp3(x, y any) int { return r.cmp3o(x, y, true) }
 
 // cmp3o: ordered=false when only (in)equality is asked
 func (r *aeRun) cmp3o(x, y any, ordered bool) int {
+	// an assembled string against the empty string: non-empty as soon as a constant piece is
+	if sx, ok := x.(avStr); ok && !ordered {
+		if c, ok := y.(avConst); ok && c.v.Kind() == constant.String && constant.StringVal(c.v) == "" {
+			for _, p := range sx.parts {
+				if pc, ok := p.(avConst); ok && constant.StringVal(pc.v) != "" {
+					return 1
+				}
+			}
+		}
+	}
+	if _, ok := y.(avStr); ok && !ordered {
+		if _, isC := x.(avConst); isC {
+			return -r.cmp3o(y, x, ordered)
+		}
+	}
 	switch a := x.(type) {
 	case avConst:
 		switch b := y.(type) {
@@ -568,6 +585,14 @@ func (r *aeRun) binop(op token.Token, x, y any, t types.Type) any {
 			return avIndex{i.off + d}
 		}
 	}
+	if op == token.ADD && isStringType(t) {
+		// string concatenation: a template of constant pieces and abstract values
+		if xs, ok := strParts(x); ok {
+			if ys, ok := strParts(y); ok {
+				return mkStr(xs, ys)
+			}
+		}
+	}
 	return avUnknown{"arithmetic on abstract values"}
 }
 
@@ -644,8 +669,73 @@ func zeroValue(t types.Type) any {
 			s.fields[i] = zeroValue(u.Field(i).Type())
 		}
 		return s
+	case *types.Array:
+		if u.Len() <= 16 {
+			// a small local array (varargs, slice literal): elements addressed as synthetic fields
+			s := &avStruct{t: t, fields: make([]any, u.Len())}
+			for i := range s.fields {
+				s.fields[i] = zeroValue(u.Elem())
+			}
+			return s
+		}
 	}
 	return avNil{t}
+}
+
+// avList: a slice value built locally: the elements appended to a base (nil: empty)
+type avList struct {
+	base  any
+	elems []any
+}
+
+// avStr: a string assembled from constant pieces and abstract values
+type avStr struct{ parts []any }
+
+func strParts(v any) ([]any, bool) {
+	switch x := v.(type) {
+	case avConst:
+		if x.v.Kind() == constant.String {
+			return []any{x}, true
+		}
+		if x.v.Kind() == constant.Int {
+			return []any{avConst{constant.MakeString(x.v.ExactString())}}, true
+		}
+	case avTerm:
+		return []any{x}, true
+	case avStr:
+		return x.parts, true
+	case avIface:
+		return strParts(x.x)
+	}
+	return nil, false
+}
+
+// mkStr concatenates pieces, merging adjacent constants
+func mkStr(pieces ...[]any) any {
+	var out []any
+	for _, ps := range pieces {
+		for _, p := range ps {
+			if c, ok := p.(avConst); ok {
+				if constant.StringVal(c.v) == "" {
+					continue
+				}
+				if n := len(out); n > 0 {
+					if pc, ok := out[n-1].(avConst); ok {
+						out[n-1] = avConst{constant.MakeString(constant.StringVal(pc.v) + constant.StringVal(c.v))}
+						continue
+					}
+				}
+			}
+			out = append(out, p)
+		}
+	}
+	switch len(out) {
+	case 0:
+		return avConst{constant.MakeString("")}
+	case 1:
+		return out[0]
+	}
+	return avStr{out}
 }
 
 func (r *aeRun) eval(fr *frame, v ssa.Value) any {
@@ -737,11 +827,42 @@ func (r *aeRun) exec(fr *frame, b *ssa.BasicBlock, pred *ssa.BasicBlock) any {
 							}
 						}
 					}
+					if r.freePhis {
+						// state-machine mode: a loop-carried variable holds an arbitrary state
+						key := "state:" + ph.Comment
+						switch {
+						case isBoolType(ph.Type()) || isStringType(ph.Type()) || isIntType(ph.Type()):
+							fr.vals[ph] = r.mkTerm(key, 0, ph.Type(), kindOfType(ph.Type()), nil)
+						default:
+							fr.vals[ph] = avRef{key: key, side: 0, t: ph.Type()}
+						}
+						if r.stateInit == nil {
+							r.stateInit = map[string]any{}
+						}
+						r.stateInit[ph.Comment] = ev
+						continue
+					}
 					fr.vals[ph] = ev
 				}
 				skipPhis = true
 			case r.inIter && fr == r.iterFrame && l.header == r.target.header && !fromOutside:
 				// back edge of the analysed loop: one generic position done
+				if r.freePhis {
+					next := map[string]any{}
+					for _, ins := range b.Instrs {
+						ph, ok := ins.(*ssa.Phi)
+						if !ok {
+							break
+						}
+						for i, pb := range b.Preds {
+							if pb == pred && !isIntType(ph.Type()) {
+								next[ph.Comment] = r.eval(fr, ph.Edges[i])
+							}
+						}
+					}
+					r.outcome = &iterOutcome{kind: "continue", val: next}
+					panic(returned{nil})
+				}
 				r.checkBackEdge(fr, b, pred, l)
 				r.outcome = &iterOutcome{kind: "continue"}
 				panic(returned{nil})
@@ -1101,6 +1222,18 @@ func (r *aeRun) evalInstr(fr *frame, v ssa.Value) any {
 	case *ssa.Slice:
 		base := r.eval(fr, x.X)
 		if x.Low == nil && x.High == nil {
+			if a, ok := base.(avAddr); ok && a.alloc != nil && len(a.path) == 0 {
+				if pt, ok := a.alloc.Type().Underlying().(*types.Pointer); ok {
+					if _, isArr := pt.Elem().Underlying().(*types.Array); isArr {
+						if arr, ok := fr.mem[a.alloc].(*avStruct); ok {
+							return avList{elems: append([]any{}, arr.fields...)}
+						}
+						if z, ok := zeroValue(pt.Elem()).(*avStruct); ok {
+							return avList{elems: z.fields}
+						}
+					}
+				}
+			}
 			return base
 		}
 		// substring / subslice of an abstract value: a derived value
@@ -1426,8 +1559,33 @@ func (r *aeRun) evalCall(fr *frame, c *ssa.Call) any {
 				return r.mkTerm("len("+x.key+")", x.side, types.Typ[types.Int], akOrder, []string{x.key})
 			case avNil:
 				return intC(0)
+			case avList:
+				if x.base == nil {
+					return intC(int64(len(x.elems)))
+				}
 			}
 			return avUnknown{"len"}
+		case "append":
+			var out avList
+			switch x := args[0].(type) {
+			case avNil:
+			case avList:
+				out = avList{base: x.base, elems: append([]any{}, x.elems...)}
+			case avRef:
+				out = avList{base: x}
+			default:
+				return avUnknown{"append to an unmodelled slice"}
+			}
+			if len(args) > 1 {
+				add, ok := args[1].(avList)
+				if !ok || add.base != nil {
+					if _, isNil := args[1].(avNil); !isNil {
+						return avUnknown{"append of an unmodelled slice"}
+					}
+				}
+				out.elems = append(out.elems, add.elems...)
+			}
+			return out
 		case "min", "max":
 			best := args[0]
 			for _, a := range args[1:] {
@@ -1460,6 +1618,79 @@ func (r *aeRun) evalCall(fr *frame, c *ssa.Call) any {
 			return intC(int64(r.cmp3(ta, tb)))
 		}
 		r.oof("time comparison of unrelated values")
+	case "fmt.Sprintf":
+		if f, ok := args[0].(avConst); ok && f.v.Kind() == constant.String {
+			var vals []any
+			if len(args) > 1 {
+				if l, ok := args[1].(avList); ok && l.base == nil {
+					vals = l.elems
+				} else if _, isNil := args[1].(avNil); !isNil {
+					return avUnknown{"Sprintf with unmodelled arguments"}
+				}
+			}
+			format := constant.StringVal(f.v)
+			var pieces [][]any
+			ai := 0
+			for i := 0; i < len(format); i++ {
+				if format[i] != '%' {
+					j := i
+					for j < len(format) && format[j] != '%' {
+						j++
+					}
+					pieces = append(pieces, []any{avConst{constant.MakeString(format[i:j])}})
+					i = j - 1
+					continue
+				}
+				if i+1 >= len(format) {
+					return avUnknown{"Sprintf format"}
+				}
+				i++
+				switch format[i] {
+				case '%':
+					pieces = append(pieces, []any{avConst{constant.MakeString("%")}})
+				case 's', 'v', 'd':
+					if ai >= len(vals) {
+						return avUnknown{"Sprintf with too few arguments"}
+					}
+					ps, ok := strParts(vals[ai])
+					if !ok {
+						return avUnknown{"Sprintf of an unmodelled value"}
+					}
+					if format[i] == 'd' {
+						if t, isT := vals[ai].(avIface); isT {
+							if tt, ok := t.x.(avTerm); ok && !isIntType(tt.t) {
+								return avUnknown{"Sprintf %d of a non-integer"}
+							}
+						}
+					}
+					pieces = append(pieces, ps)
+					ai++
+				default:
+					return avUnknown{"Sprintf verb " + string(format[i])}
+				}
+			}
+			return mkStr(pieces...)
+		}
+		return avUnknown{"Sprintf with a non-constant format"}
+	case "strings.Join":
+		if l, ok := args[0].(avList); ok && l.base == nil {
+			sep, okS := strParts(args[1])
+			if okS {
+				var pieces [][]any
+				for i, el := range l.elems {
+					ps, ok := strParts(el)
+					if !ok {
+						return avUnknown{"Join of an unmodelled element"}
+					}
+					if i > 0 {
+						pieces = append(pieces, sep)
+					}
+					pieces = append(pieces, ps)
+				}
+				return mkStr(pieces...)
+			}
+		}
+		return avUnknown{"Join of an unmodelled slice"}
 	case "strings.EqualFold":
 		// EqualFold(a, b) holds exactly when the canonical case foldings of a and b are equal: each
 		// side's folding is a value derived from that side
